@@ -40,4 +40,7 @@ VARIANTS = [
       "    current_start, current_stop = get_dim_range(arr, dim)\n\n    if start == current_start and stop == current_stop:\n        return arr\n\n    if start is None:\n        left_closed = True", "R17.2"),
     V("N-crop-dim-nothing-requested-shortcut", "src/soundevent/arrays/operations.py", "    current_start, current_stop = get_dim_range(arr, dim)\n\n    if start is None:\n        left_closed = True",
       "    current_start, current_stop = get_dim_range(arr, dim)\n\n    if start is None and stop is None:\n        return arr\n\n    if start is None:\n        left_closed = True", None),
+    # mutation audit, second operator set: guards on valid requests
+    V("extend-rejects-every-valid-range", "src/soundevent/arrays/operations.py", "    if start > stop:\n        raise ValueError(\n            f\"Start value {start} must be less than stop value {stop}\"\n        )\n\n    step = get_dim_step(arr, dim)", "    if start < stop:\n        raise ValueError(\n            f\"Start value {start} must be less than stop value {stop}\"\n        )\n\n    step = get_dim_step(arr, dim)", "R17.3"),
+    V("crop-width-rejects-every-smaller-width", "src/soundevent/arrays/operations.py", "    if width >= array.sizes[dim]:", "    if width <= array.sizes[dim]:", "R17.5"),
 ]
